@@ -501,6 +501,99 @@ def _rep_close(tok):
     return tok.startswith(")") and tok.endswith("*")
 
 
+def _renumber_slots(text, slots):
+    """slots numbered in the order of their first use in the text; slots the text does not use are dropped"""
+    order = []
+    for tok in text.split(" "):
+        m = re.fullmatch(r"#(\d+)", tok)
+        if m and int(m.group(1)) not in order:
+            order.append(int(m.group(1)))
+    ren = {old: new for new, old in enumerate(order)}
+    text = " ".join(("#%d" % ren[int(tok[1:])]) if re.fullmatch(r"#\d+", tok) else tok for tok in text.split(" "))
+    return text, [slots[i] for i in order]
+
+
+def _optional_piece(c, piece, d):
+    """the piece emitted only when c holds, as a whole-value slot: c.then(|| piece), or o.map(|m| piece) when c is `let Some(m) = o`"""
+    if c[0] == "iflet" and c[1] in ("v1::Some($)", "Option::Some($)"):
+        o = c[2]
+        pay = _proj_some(o)
+
+        def sub(n):
+            if n == pay:
+                return ("cparam", d, 0)
+            if n[0] == "cparam" and n[1] >= d:
+                return ("cparam", n[1] + 1, n[2])
+            if n[0] == "closure" and n[1] >= d:
+                return ("closure", n[1] + 1, n[2], n[3])
+            return None
+        return ("call", "Option::map", [o, ("closure", d, 1, rewrite(piece, sub))])
+    return _mk_then(c, piece)
+
+
+def _split_rep_parts(text, slots, d):
+    """`#( pre #k post )*` over a list written as parts (`vec+`: loops, optional items, single items) is the pieces of the parts one after the
+    other - a repetition per loop, an optional piece per optional item, the tokens of a single item in place - each with pre / post around
+    every element: the same tokens as a token stream assembled by appends"""
+    toks = text.split(" ")
+    slots = list(slots)
+    i = 0
+    changed = False
+    while i < len(toks):
+        if toks[i] != "#(":
+            i += 1
+            continue
+        depth, j = 1, i + 1
+        while j < len(toks) and depth:
+            if toks[j] in _OPEN_TOK:
+                depth += 1
+            elif toks[j] in _CLOSE_TOK or _rep_close(toks[j]):
+                depth -= 1
+            j += 1
+        inner = toks[i + 1:j - 1]
+        marks = [x for x in inner if re.fullmatch(r"#\d+", x)]
+        ok = depth == 0 and toks[j - 1] == ")*" and len(marks) == 1 and "#(" not in inner and toks.count(marks[0]) == 1
+        st = slots[int(marks[0][1:])] if ok else None
+        if not ok or st[0] != "call" or st[1] != "vec+":
+            i += 1
+            continue
+        pre, post = inner[:inner.index(marks[0])], inner[inner.index(marks[0]) + 1:]
+
+        def piece(X):
+            if X[0] == "tpl" and X[1] == "quote":
+                return ("tpl", "quote", " ".join(pre + [X[2]] + post).strip(), list(X[3]))
+            return ("tpl", "quote", " ".join(pre + ["#0"] + post), [X])
+        new = []
+        for part in st[2]:
+            if part[0] == "for":
+                it, X = part[1], part[2]
+                if X[0] in ("for", "seq", "early") or (X[0] == "if" and (_is_unit(X[2]) or _is_unit(X[3]))) or _is_unit(X):
+                    new = None
+                    break
+                slots.append(("call", "Iterator::map", [it, ("closure", d, 1, rewrite(piece(X), _elem_to_param(it, d)))]))
+                new += ["#(", "#%d" % (len(slots) - 1), ")*"]
+            elif part[0] == "if" and _is_unit(part[3]) and not _is_unit(part[2]) and part[2][0] not in ("for", "seq", "early", "if"):
+                slots.append(_optional_piece(part[1], piece(part[2]), d))
+                new.append("#%d" % (len(slots) - 1))
+            elif part[0] in ("for", "seq", "early", "if", "match") or _is_unit(part):
+                new = None
+                break
+            else:
+                pc = piece(part)
+                base = len(slots)
+                new += [("#%d" % (base + int(tok[1:]))) if re.fullmatch(r"#\d+", tok) else tok for tok in pc[2].split(" ")]
+                slots.extend(pc[3])
+        if new is None:
+            i += 1
+            continue
+        toks[i:j] = new
+        changed = True
+        i += len(new)
+    if not changed:
+        return text, slots
+    return _renumber_slots(" ".join(" ".join(toks).split()), slots)
+
+
 def _fold_rep_groups(text, slots):
     """`#( pre #k post )*` over `it.map(|x| quote!(body))` is `#( #k )*` over `it.map(|x| quote!(pre body post))`: the literal tokens of a
     repetition (without separator) belong to every element, wherever they are written"""
@@ -3631,6 +3724,7 @@ class Norm:
             return "#%d" % (len(slots) - 1)
         text = " ".join(T.render(items, interp).split())
         text, slots = _fold_rep_groups(text, slots)
+        text, slots = _split_rep_parts(text, slots, getattr(self, "_cur_depth", 0) + 1)
         return _tpl_over_match(("tpl", kind, text, slots))
 
     def _fmt(self, parts):
